@@ -72,6 +72,8 @@ structure Obs where
   decidedAtRound : Nat := 0
   faulty : Bool := false
   started : Bool := false
+  /-- justification tokens delivered to this node (candidates for being forwarded verbatim) -/
+  justSeen : List String := []
   /-- (sender, round, phase) slots occupied in the pre-start queue -/
   preSlots : List (Pid × Nat × Nat) := []
 
@@ -158,13 +160,18 @@ def phaseOrd (ph : Nat) : Nat := ph
 def progLe (a b : Nat × Nat × Nat) : Bool :=
   a.1 < b.1 || (a.1 == b.1 && (a.2.1 < b.2.1 || (a.2.1 == b.2.1 && a.2.2 ≤ b.2.2)))
 
-/-- weak equality of effect tokens: identical, or both broadcasts equal up to the signer list of a
-forwarded justification (Go map order decides which stored justification is forwarded) -/
-def effEq (a b : String) : Bool :=
+/-- equality of effect tokens: identical; or both broadcasts equal up to the signer list of a justification
+that the implementation *forwarded* (its token was delivered to this node earlier — Go map order decides
+which stored justification is forwarded). Justifications the participant builds itself must match exactly. -/
+def effEq (seen : List String) (a b : String) : Bool :=
   a == b ||
   (a.startsWith "B," && b.startsWith "B," &&
     let pa := a.splitOn "/"; let pb := b.splitOn "/"
-    pa.length == 4 && pb.length == 4 && pa.take 3 == pb.take 3)
+    pa.length == 4 && pb.length == 4 && pa.take 3 == pb.take 3 &&
+    -- b is the implementation's token: its justification part must have been delivered before
+    (match (b.splitOn ",").getLast? with
+     | some j => seen.contains j
+     | none => false))
 
 /-- all permutations (small lists only) -/
 def perms : List Pid → List (List Pid)
@@ -190,6 +197,9 @@ def processOp (st : St) (pid : Pid) (kind : String) (now : Int) (detail effsS pr
     match opM with
     | none => (st, .bad "cannot parse op")
     | some (op, msg?) =>
+      let seenJ : List String := match msg? with
+        | some mg => (match mg.just with | some j => justStr (some j) :: o.justSeen | none => o.justSeen)
+        | none => o.justSeen
       let implToks0 := if effsS = "-" then [] else splitWs effsS
       let tokensOf := fun (m' : PState) (effs : List Eff) =>
         effs.filterMap effStr ++
@@ -200,7 +210,7 @@ def processOp (st : St) (pid : Pid) (kind : String) (now : Int) (detail effsS pr
           else [])
       let agrees := fun (r : PState × List Eff) =>
         let t := tokensOf r.1 r.2
-        t.length == implToks0.length && (t.zip implToks0).all (fun (a, b) => effEq a b)
+        t.length == implToks0.length && (t.zip implToks0).all (fun (a, b) => effEq seenJ a b)
       -- the queue drain order is Go map order: when the default order does not reproduce the observed
       -- effects, search the sender permutations (bounded) for one that does
       let (m', effs) :=
@@ -224,6 +234,7 @@ def processOp (st : St) (pid : Pid) (kind : String) (now : Int) (detail effsS pr
       let modelRet := retOf effs
       let implRet := if retS.startsWith "err:internal" then "err:internal" else if retS.startsWith "panic" then "panic" else retS
       -- observation update (independent of the model): delivered message first
+      let o : Obs := { o with justSeen := if seenJ.length > 400 then seenJ.take 400 else seenJ }
       let o1 : Obs := match msg? with
         | some mg =>
           let phN := mg.phase.toNat
@@ -276,7 +287,7 @@ def processOp (st : St) (pid : Pid) (kind : String) (now : Int) (detail effsS pr
           -- correspondence
           let modelProg : Nat × Nat × Nat :=
             if m'.inst.termination.isSome then (1, 0, 0) else (0, m'.inst.round, m'.inst.phase.toNat)
-          let toksOk := modelToks.length == implToks.length && (modelToks.zip implToks).all (fun (a, b) => effEq a b)
+          let toksOk := modelToks.length == implToks.length && (modelToks.zip implToks).all (fun (a, b) => effEq seenJ a b)
           if !toksOk then (st', .diff s!"node={pid} effects: model=[{" ".intercalate modelToks}]")
           else if modelRet != implRet then (st', .diff s!"node={pid} ret: model={modelRet} impl={implRet}")
           else if modelProg != pg then (st', .diff s!"node={pid} progress: model={modelProg} impl={pg}")
